@@ -34,6 +34,21 @@ def abstract(obj, names):
     return classes, flags
 
 
+def abstract_subclasses(obj, names):
+    """for a class object: the classes named in sandbox.py it is a subclass of"""
+    from collections import abc, deque  # noqa
+    ns = {"abc": abc, "deque": deque, "types": types, "type": type}
+    out = []
+    if isinstance(obj, type):
+        for n in names:
+            try:
+                if issubclass(obj, eval(n, ns)):
+                    out.append(n)
+            except Exception:
+                pass
+    return out
+
+
 def _flag(obj, f):
     try:
         return bool(getattr(obj, f, False))
@@ -86,6 +101,10 @@ def sample_objects():
         "userdict": collections.UserDict(a=1), "ordereddict": collections.OrderedDict(a=1),
         "defaultdict": collections.defaultdict(int), "frozenset": frozenset([1]), "tuple": (1,),
         "unsafe_fn": unsafe_f, "alters_fn": alters, "alters_not_unsafe_fn": both, "none": None,
+        # class objects: a method looked up on the class is called with the object to modify as first argument
+        "class:dict": dict, "class:list": list, "class:set": set, "class:deque": collections.deque,
+        "class:ordereddict": collections.OrderedDict, "class:userlist": collections.UserList, "class:str": str,
+        "class:tuple": tuple, "class:K": K,
     }
     return objs, c
 
@@ -114,8 +133,9 @@ def decision_crosscheck(res, pid):
     reqs, meta = [], []
     for oname, o in objs.items():
         cl, fl = abstract(o, names)
+        subs = abstract_subclasses(o, names)
         for a in attrs:
-            reqs.append([Atom("sbx"), cl, fl, a])
+            reqs.append([Atom("sbx"), cl, fl, subs, a])
             meta.append((oname, o, a))
     replies = core.driver_batch(reqs)
     n = 0
